@@ -3,7 +3,7 @@
     answers) and the witnesses stay in place (scan files are never written - C03; a torrent's own
     export files only ever receive correct bytes - C01). *)
 From TB Require Import Base Decimal BencodeModel TorrentModel TorrentProofs PathModel FsModel SolverModel FinderModel RunModel
-                       SolverProofs RunProofs FsProofs FaultProofs PreludeProofs TableProofs FinderProofs SearchProofs PresentProofs Generated GeneratedObligations SystemModel SystemProofs GlueProofs EstablishProofs CompleteProofs RunExample RerunProofs AvailProofs.
+                       SolverProofs RunProofs FsProofs FaultProofs PreludeProofs TableProofs FinderProofs SearchProofs PresentProofs Generated GeneratedObligations SystemModel SystemProofs GlueProofs EstablishProofs CompleteProofs RunExample RerunProofs AvailProofs TerminationProofs.
 From Coq Require Import Permutation Sorted.
 Local Open Scope N_scope.
 
@@ -115,6 +115,22 @@ Example C02_present_somewhere : ix_of_fs ex_f0 0 ex_under ex_es0 ex_ix /\
   Forall (seg_present_stable ex_content ex_f0 ex_under ex_es0 ex_es) (w_segs ex_pc).
 Proof. exact (conj ex_ix_of_fs ex_present). Qed.
 
+(** TOTAL form: complete fault-free runs exist, and EVERY complete run - under every interleaving
+    with the other pieces' evaluations - ends with this piece returned [Success] and in place. *)
+Theorem C02_present_piece_recovered_in_every_complete_run H content es0 ix es dev under pc s i :
+  table_functional content es -> wf_piece content pc -> Forall (fun sg => In (ps_entry sg) es) (w_segs pc) ->
+  cr H content pc -> H (piece_bytes content pc) = w_hash pc -> Forall (pad_zero content) (w_segs pc) ->
+  w_segs pc <> [] -> (forall sg, w_segs pc = [sg] -> ps_len sg <> 0) ->
+  populate ix es0 = Ok es -> ix_of_fs (s_fs s) dev under es0 ix ->
+  Forall (seg_present_stable content (s_fs s) under es0 es) (w_segs pc) ->
+  alias_free content es (s_fs s) -> Forall (pgood content es) (s_pool s) ->
+  nth_error (s_pool s) i = Some (solve_prog H pc) ->
+  (exists s', freach s s' /\ finished s') /\
+  (forall s', freach s s' -> finished s' ->
+     nth_error (s_pool s') i = Some (Ret Success) /\
+     forall sg, In sg (w_segs pc) -> e_pad (ps_entry sg) = false -> holds_seg content (s_fs s') sg).
+Proof. exact (present_piece_is_recovered_in_every_complete_run H content es0 ix es dev under pc s i). Qed.
+
 Print Assumptions C02_candidates_complete.
 Print Assumptions C02_candidates_sound.
 Print Assumptions C02_witnesses_give_combination.
@@ -125,3 +141,4 @@ Print Assumptions C02_available_means_recovered.
 Print Assumptions C02_stably_available_means_recovered.
 Print Assumptions C02_stable_availability_is_invariant.
 Print Assumptions C02_present_means_recovered.
+Print Assumptions C02_present_piece_recovered_in_every_complete_run.
